@@ -34,6 +34,7 @@ func genDigit(p int) int {
 }
 
 type countingSource struct {
+	hashed   bool // H sources: hashDigit instead of genDigit
 	first    int // override of the first value returned (-99 = none)
 	length   int // -1 infinite
 	ill      bool
@@ -76,11 +77,27 @@ func (c *countingSource) next() int {
 		return -1
 	}
 	d := genDigit(c.pos)
+	if c.hashed {
+		d = hashDigit(c.pos)
+	}
 	if c.pos == 0 && c.first != -99 {
 		d = c.first
 	}
 	c.pos++
 	return d
+}
+
+// hashDigit is the digit function of H sources: no structure a pattern could repeat in, so that a
+// pattern taken at depth q first occurs at q (also implemented in the Lean drivers).
+func hashDigit(p int) int {
+	if p == 0 {
+		return 3
+	}
+	x := uint32(p+1) * 2654435761
+	x ^= x >> 15
+	x *= 2246822519
+	x ^= x >> 13
+	return int(x % 10)
 }
 
 type handle struct {
@@ -196,14 +213,14 @@ func newScriptNumber(v int, desc string) (*scriptEnv, string) {
 			}
 		}
 		n = Num{v: 3, n3: x}
-	case "G":
+	case "G", "H":
 		length, _ := strconv.Atoi(parts[1])
 		exp, _ := strconv.Atoi(parts[2])
 		if v != 3 && parts[3] != "0" {
 			return nil, "na" // v1/v2 only understand -1 as the end marker; ill-behaved sources are a v3 (NewNumber) matter
 		}
 		illv := map[string]int{"1": 12, "2": 261, "3": -251, "4": 65543, "5": 1 << 40}[parts[3]]
-		env.src = &countingSource{length: length, ill: parts[3] != "0", illValue: illv, first: -99}
+		env.src = &countingSource{length: length, ill: parts[3] != "0", illValue: illv, first: -99, hashed: parts[0] == "H"}
 		if len(parts) > 4 {
 			if v != 3 {
 				return nil, "na"
